@@ -45,7 +45,7 @@ func (c *Case) Int(n int) int { return c.ch.Int(n) }
 func (c *Case) Bool() bool    { return c.ch.Int(2) == 1 }
 
 // Prob returns true with probability num/den (under the random driver).
-func (c *Case) Prob(num, den int) bool { return c.ch.Int(den) < num }
+func (c *Case) Prob(num, den int) bool { return c.ch.Int(den) >= den-num }
 
 // Range returns a value in [lo,hi].
 func (c *Case) Range(lo, hi int) int { return lo + c.ch.Int(hi-lo+1) }
@@ -355,6 +355,13 @@ func (r *runner) runCorpus(t *testing.T, prop Prop) bool {
 			continue
 		}
 		c, err := r.execute(&replayChooser{trace: rp.Choices}, prop, true)
+		if rp.Description != nil && !JSONEqual(safeDescribe(c), rp.Description) {
+			// the generators changed since this trace was recorded: it no longer
+			// denotes the recorded case, so it decides nothing
+			n, _ := r.stats.Extra["stale_corpus_entries"].(int)
+			r.stats.Extra["stale_corpus_entries"] = n + 1
+			continue
+		}
 		r.account(c)
 		r.stats.Replayed++
 		if err != nil {
@@ -383,14 +390,12 @@ func Run(t *testing.T, id string, prop Prop) {
 		return
 	}
 	rapid.Check(t, func(rt *rapid.T) {
-		gen := rapid.IntRange(0, 1<<30)
 		ch := chooserFunc(func(n int) int {
 			if n == 1 {
 				return 0
 			}
 			return rapid.IntRange(0, n-1).Draw(rt, "c")
 		})
-		_ = gen
 		c, err := r.execute(ch, prop, false)
 		if err != nil {
 			r.mu.Lock()
@@ -473,4 +478,61 @@ func Tier() string {
 		return "thorough"
 	}
 	return "quick"
+}
+
+// RunFixed runs a list of hand-written deterministic regression cases (each a
+// plain function, no generator involved). A failure is reported like any other
+// violation; the replay file names the case.
+func RunFixed(t *testing.T, id string, cases map[string]func() error) {
+	r := newRunner(id, t.Name(), "fixed")
+	defer r.finish()
+	only := ""
+	if path := os.Getenv("VERIF_REPLAY"); path != "" {
+		rp, err := loadReplay(path)
+		if err != nil {
+			t.Fatalf("verif: cannot load replay %s: %v", path, err)
+		}
+		if rp.Test != r.test {
+			t.Skipf("replay is for test %s", rp.Test)
+		}
+		only = rp.Note
+	}
+	names := make([]string, 0, len(cases))
+	for n := range cases {
+		names = append(names, n)
+	}
+	sort.Strings(names)
+	for _, n := range names {
+		if only != "" && only != n {
+			continue
+		}
+		f := cases[n]
+		c, err := r.execute(&replayChooser{}, func(c *Case) error {
+			c.Class("fixed:%s", n)
+			c.NonTrivial()
+			for _, b := range []byte(n) {
+				c.ch.trace = append(c.ch.trace, int(b))
+			}
+			c.Describe(func() any { return map[string]any{"regression_case": n} })
+			return f()
+		}, false)
+		r.account(c)
+		if err != nil {
+			if v, ok := err.(*Violation); ok {
+				if c.Known(v) == nil {
+					continue
+				}
+			}
+			r.failed = true
+			r.stats.Violations++
+			rp := Replay{Property: id, Package: os.Getenv("VERIF_PKG"), Test: r.test, Error: err.Error(), Note: n, Description: map[string]any{"regression_case": n}}
+			if v, ok := err.(*Violation); ok {
+				rp.Signature = v.Sig
+			}
+			b, _ := json.MarshalIndent(rp, "", " ")
+			p := filepath.Join(outDir(), fmt.Sprintf("replay-%s-%s-%s.json", id, r.test, n))
+			_ = os.WriteFile(p, b, 0o644)
+			t.Errorf("VERIF-VIOLATION property=%s replayfile=%s\n%v", id, p, err)
+		}
+	}
 }
